@@ -371,6 +371,7 @@ func (e *e2e) send(l string) error {
 			return err
 		}
 		defer c.Close()
+		c.SetWriteDeadline(time.Now().Add(3 * time.Second))
 		_, err = c.Write([]byte(l))
 		return err
 	default:
@@ -379,6 +380,8 @@ func (e *e2e) send(l string) error {
 			return err
 		}
 		defer c.Close()
+		// a listener that never reads lets the kernel's queue fill up: the send must fail rather than wait for ever
+		c.SetWriteDeadline(time.Now().Add(3 * time.Second))
 		_, err = c.Write([]byte(l))
 		return err
 	}
